@@ -17740,6 +17740,7 @@ int cg_array_read_as(int A, CGNS_ENUMT(DataType_t) type, void *Data)
             return CG_ERROR;
         }
         if (cgio_read_all_data_type(cg->cgio, array->id, array->data_type, array_data)) {
+            free(array_data);
             cg_io_error("cgio_read_all_data_type");
             return CG_ERROR;
         }
